@@ -14,6 +14,7 @@ import (
 	"strconv"
 	"strings"
 	"sync"
+	"sync/atomic"
 	"time"
 
 	"verif/common"
@@ -146,6 +147,7 @@ func Main(run *common.Run, cases []Case, assumptions []string) {
 		n = len(cases)
 	}
 	results := make([]caseResult, 0, len(cases))
+	var hangs []string
 	var mu sync.Mutex
 	var wg sync.WaitGroup
 	for i := 0; i < n; i++ {
@@ -169,6 +171,12 @@ func Main(run *common.Run, cases []Case, assumptions []string) {
 			got := 0
 			for sc.Scan() {
 				line := sc.Text()
+				if strings.HasPrefix(line, "E1HANG ") {
+					mu.Lock()
+					hangs = append(hangs, strings.TrimPrefix(line, "E1HANG "))
+					mu.Unlock()
+					continue
+				}
 				if !strings.HasPrefix(line, "E1RESULT ") {
 					fmt.Println(line)
 					continue
@@ -185,27 +193,51 @@ func Main(run *common.Run, cases []Case, assumptions []string) {
 			}
 			if err := cmd.Wait(); err != nil {
 				mu.Lock()
-				run.InfraError("worker %d failed: %v (results so far %d)", i, err, got)
+				if ee, ok := err.(*exec.ExitError); !ok || ee.ExitCode() != 3 {
+					run.InfraError("worker %d failed: %v (results so far %d)", i, err, got)
+				}
 				mu.Unlock()
 			}
 		}(i)
 	}
 	wg.Wait()
-	if len(results) != len(cases) && len(run.Infra) == 0 {
+	for _, h := range hangs {
+		// an execution that never reaches a scheduling point again: the rest of that worker's cases is lost
+		run.Violation("execution-did-not-terminate", "an execution of scenario \""+h+"\" ran for more than "+ExecWallLimit.String()+" without ending (a loop without any scheduling point)", map[string]any{"scenario": h})
+		run.Exhaustive = false
+	}
+	if len(results) != len(cases) && len(run.Infra) == 0 && len(hangs) == 0 {
 		run.InfraError("expected %d case results, got %d", len(cases), len(results))
 	}
 	sort.Slice(results, func(i, j int) bool { return results[i].Name < results[j].Name })
 	summarise(run, cases, results, assumptions)
 }
 
+// ExecWallLimit is how long one execution may run on the wall clock before the
+// worker gives up on it (executions normally take milliseconds).
+var ExecWallLimit = 3 * time.Minute
+
 func worker(w string, cases []Case) {
 	var i, n int
 	fmt.Sscanf(w, "%d/%d", &i, &n)
 	out := bufio.NewWriter(os.Stdout)
+	var current atomic.Value
+	current.Store("")
+	go func() {
+		for {
+			time.Sleep(2 * time.Second)
+			if st := vm.ExecStart.Load(); st != 0 && time.Since(time.Unix(0, st)) > ExecWallLimit {
+				// cannot be stopped from inside: report and leave
+				fmt.Printf("E1HANG %s\n", current.Load().(string))
+				os.Exit(3)
+			}
+		}
+	}()
 	for k, c := range cases {
 		if k%n != i {
 			continue
 		}
+		current.Store(c.Sc.Name)
 		cr := runCase(c)
 		b, _ := json.Marshal(cr)
 		fmt.Fprintf(out, "E1RESULT %s\n", b)
